@@ -62,35 +62,43 @@ def check(ctx):
             for f in (cout, prog):
                 if os.path.exists(f):
                     os.remove(f)
-            rc, log, to = ctx.go_run(drv, "TestVerifMirror", timeout=900,
-                                     env={"VERIF_CASES": cin, "VERIF_OUT": cout, "VERIF_PROTO": proto, "VERIF_MAXUDP": mx,
-                                          "VERIF_PORT": port, "VERIF_PROGRESS": prog})
-            if "raw receive socket" in log or "operation not permitted" in log:
-                raise vlib.Infra("raw sockets not available: " + log[-500:])
-            got = vlib.read_ndjson(cout) if os.path.exists(cout) else []
-            if rc != 0 or to:
-                culprit = json.load(open(prog)) if os.path.exists(prog) else None
-                why = next((l for l in log.split("\n") if l.startswith("panic:") or l.startswith("fatal error:")), log[-300:])
-                ctx.violation("%s mirroring (max-udp-size %d): the collector process died while mirroring a %s-octet datagram from a "
-                              "%s-octet source address: %s" % (proto, mx, culprit and culprit["n"], culprit and culprit["form"], why),
-                              {"proto": proto, "max_udp_size": mx, "case": culprit and {"n": culprit["n"], "form": culprit["form"]}},
-                              key="%s:died:%s" % (proto, "src4" if culprit and culprit["form"] == 4 else "len"))
-                continue
-            for c, g in zip(cases, got):
-                ctx.count([proto, mx, c["n"], c["form"]], nontrivial=c["n"] > 0)
-                where = "%s mirroring (max-udp-size %d), %d-octet datagram from %s" % (proto, mx, c["n"], c["src"])
-                if g.get("missing"):
-                    ctx.violation(where + ": nothing was re-emitted to the mirror target", {"proto": proto, "max": mx, "n": c["n"], "form": c["form"]},
-                                  key=proto + ":missing")
+            # the other protocol's max-udp-size is an independent setting; datagrams one at a time and back to back
+            variant = (sizes.index(mx) + (0 if proto == "ipfix" else 1) + ctx.seed) % 3
+            other = [mx, 2 * mx + 100, max(28, mx // 2)][variant] if not thorough else None
+            runs = [(other, 1 if variant != 1 else 6)] if not thorough else [(mx, 1), (2 * mx + 100, 6), (max(28, mx // 2), 3)]
+            for other, burst in runs:
+                for f in (cout, prog):
+                    if os.path.exists(f):
+                        os.remove(f)
+                rc, log, to = ctx.go_run(drv, "TestVerifMirror", timeout=900,
+                                         env={"VERIF_CASES": cin, "VERIF_OUT": cout, "VERIF_PROTO": proto, "VERIF_MAXUDP": mx,
+                                              "VERIF_PORT": port, "VERIF_PROGRESS": prog, "VERIF_OTHERUDP": other, "VERIF_BURST": burst})
+                if "raw receive socket" in log or "operation not permitted" in log:
+                    raise vlib.Infra("raw sockets not available: " + log[-500:])
+                got = vlib.read_ndjson(cout) if os.path.exists(cout) else []
+                if rc != 0 or to:
+                    culprit = json.load(open(prog)) if os.path.exists(prog) else None
+                    why = next((l for l in log.split("\n") if l.startswith("panic:") or l.startswith("fatal error:")), log[-300:])
+                    ctx.violation("%s mirroring (max-udp-size %d): the collector process died while mirroring a %s-octet datagram from a "
+                                  "%s-octet source address: %s" % (proto, mx, culprit and culprit["n"], culprit and culprit["form"], why),
+                                  {"proto": proto, "max_udp_size": mx, "case": culprit and {"n": culprit["n"], "form": culprit["form"]}},
+                                  key="%s:died:%s" % (proto, "src4" if culprit and culprit["form"] == 4 else "len"))
                     continue
-                want = {"iplen": c["iplen"], "ihl": 20, "proto": 17, "src": c["src"][-4:], "dst": [127, 0, 0, 1], "sport": SPORT[proto],
-                        "dport": port, "udplen": c["udplen"], "payload": c["payload"], "pkts": 1}
-                bad = [k for k in want if g.get(k) != want[k]]
-                if bad:
-                    ctx.violation(where + ": mirrored packet differs in %s (model %s, wire %s)"
-                                  % (bad, {k: want[k] for k in bad if k != "payload"}, {k: g.get(k) for k in bad if k != "payload"}),
-                                  {"proto": proto, "max": mx, "n": c["n"], "form": c["form"], "got": {k: g.get(k) for k in want if k != "payload"}},
-                                  key=proto + ":differs:" + bad[0])
-            ctx.traces_validated += len(got)
+                for c, g in zip(cases, got):
+                    ctx.count([proto, mx, other, burst, c["n"], c["form"]], nontrivial=c["n"] > 0)
+                    where = "%s mirroring (max-udp-size %d), %d-octet datagram from %s" % (proto, mx, c["n"], c["src"])
+                    if g.get("missing"):
+                        ctx.violation(where + ": nothing was re-emitted to the mirror target", {"proto": proto, "max": mx, "n": c["n"], "form": c["form"]},
+                                      key=proto + ":missing")
+                        continue
+                    want = {"iplen": c["iplen"], "ihl": 20, "proto": 17, "src": c["src"][-4:], "dst": [127, 0, 0, 1], "sport": SPORT[proto],
+                            "dport": port, "udplen": c["udplen"], "payload": c["payload"], "pkts": 1}
+                    bad = [k for k in want if g.get(k) != want[k]]
+                    if bad:
+                        ctx.violation(where + ": mirrored packet differs in %s (model %s, wire %s)"
+                                      % (bad, {k: want[k] for k in bad if k != "payload"}, {k: g.get(k) for k in bad if k != "payload"}),
+                                      {"proto": proto, "max": mx, "n": c["n"], "form": c["form"], "got": {k: g.get(k) for k in want if k != "payload"}},
+                                      key=proto + ":differs:" + bad[0])
+                ctx.traces_validated += len(got)
     ctx.exhaustive = True
     ctx.sample({"proto": "ipfix", "max_udp_size": 64, "case": {"n": 36, "form": 16}, "model_packet": "IPv4Hdr(src, 127.0.0.1, 64) . UDPHdr(55117, port, 44) . payload"})
